@@ -114,6 +114,10 @@ OBSERVERS = {
     'linear_fingerprint': lambda m: m.linear_fingerprint(),
     'morgan_hash_set': lambda m: sorted(m.morgan_hash_set()),
     'morgan_fingerprint': lambda m: m.morgan_fingerprint(),
+    'morgan_hash_smiles': lambda m: sorted(m.morgan_hash_smiles(1, 3).items()),
+    'morgan_smiles_hash': lambda m: sorted(m.morgan_smiles_hash(1, 3).items()),
+    'linear_hash_smiles': lambda m: sorted(m.linear_hash_smiles(1, 3).items()),
+    'linear_smiles_hash': lambda m: sorted(m.linear_smiles_hash(1, 3).items()),
     'stereo_sets': lambda m: [sorted(m.chiral_tetrahedrons), sorted(m.chiral_cis_trans), sorted(m.chiral_allenes)],
     'labels': lambda m: [(n, a.implicit_hydrogens, a.hybridization, sorted(a.ring_sizes), a.stereo) for n, a in m.atoms()],
     'automorphism': lambda m: [sorted(x.items()) for _, x in zip(range(5), m.get_automorphism_mapping())],
@@ -174,7 +178,27 @@ RXN_OBSERVERS = {
 OBSERVERS.update(RXN_OBSERVERS)
 
 
-WARMABLE = {'canonicalize', 'standardize', 'neutralize', 'kekule', 'thiele', 'clean_stereo', 'clean_isotopes',
+def _log_on_copy(x, method, warm=False):
+    c = x.copy()
+    if warm:
+        if hasattr(c, 'molecules'):
+            for m in c.molecules():
+                _warm(m)
+            str(c)
+        else:
+            _warm(c)
+    return [getattr(c, method)(logging=True), str(c)]
+
+
+for _name, _meth in (('canonicalize_log', 'canonicalize'), ('standardize_log', 'standardize'), ('neutralize_log', 'neutralize'),
+                     ('standardize_charges_log', 'standardize_charges'), ('fix_resonance_log', 'fix_resonance'),
+                     ('implicify_hydrogens_log', 'implicify_hydrogens')):
+    OBSERVERS[_name] = (lambda meth: lambda m, warm=False: _log_on_copy(m, meth, warm))(_meth)
+for _name, _meth in (('rxn_canonicalize_log', 'canonicalize'), ('rxn_standardize_log', 'standardize')):
+    OBSERVERS[_name] = (lambda meth: lambda m, warm=False: _log_on_copy(m, meth, warm))(_meth)
+
+WARMABLE = {'canonicalize_log', 'standardize_log', 'neutralize_log', 'standardize_charges_log', 'fix_resonance_log',
+            'implicify_hydrogens_log', 'rxn_canonicalize_log', 'rxn_standardize_log','canonicalize', 'standardize', 'neutralize', 'kekule', 'thiele', 'clean_stereo', 'clean_isotopes',
             'implicify_hydrogens', 'explicify_hydrogens', 'rxn_canonicalize', 'rxn_standardize', 'rxn_kekule', 'rxn_thiele',
             'rxn_clean_stereo', 'rxn_clean_isotopes', 'rxn_implicify_hydrogens', 'rxn_explicify_hydrogens'}
 
